@@ -345,6 +345,63 @@ impl Ctx {
         }
     }
 
+    /// stratified design: evaluate every case of a deterministic list (built from the run seed by the caller) on `threads` threads.
+    /// Used where coverage of every stratum of a small parameter range matters more than random draws; no shrinking (the cases
+    /// are already minimal descriptions). Returns true when no violation was found.
+    pub fn sweep<C: Serialize + Sync>(&self, sub: &str, cases: &[C], threads: usize, eval: impl Fn(&C) -> Eval + Sync) -> bool {
+        let next = std::sync::atomic::AtomicUsize::new(0);
+        let first_fail: Mutex<Option<(usize, String)>> = Mutex::new(None);
+        let started: Vec<Mutex<Option<Instant>>> = (0..threads).map(|_| Mutex::new(None)).collect();
+        let finished = std::sync::atomic::AtomicUsize::new(0);
+        std::thread::scope(|sc| {
+            {
+                let (started, finished) = (&started, &finished);
+                sc.spawn(move || {
+                    while finished.load(Ordering::Relaxed) < threads {
+                        std::thread::sleep(std::time::Duration::from_millis(200));
+                        for s in started.iter() {
+                            if s.lock().unwrap().map_or(false, |t| t.elapsed() > self.hang_limit) {
+                                self.on_hang(sub, &Value::Null);
+                            }
+                        }
+                    }
+                });
+            }
+            for t in 0..threads {
+                let (next, first_fail, eval, slot, finished) = (&next, &first_fail, &eval, &started[t], &finished);
+                sc.spawn(move || {
+                    loop {
+                        let i = next.fetch_add(1, Ordering::Relaxed);
+                        if i >= cases.len() || first_fail.lock().unwrap().is_some() {
+                            break;
+                        }
+                        *slot.lock().unwrap() = Some(Instant::now());
+                        let r = match catch(|| eval(&cases[i])) {
+                            Ok(r) => r,
+                            Err(p) => Err(Fail::new(format!("panic: {}", p))),
+                        };
+                        *slot.lock().unwrap() = None;
+                        match r {
+                            Ok(rep) => self.record(sub, &cases[i], &rep, i % 16 == 0),
+                            Err(f) => {
+                                let mut g = first_fail.lock().unwrap();
+                                if g.as_ref().map_or(true, |(j, _)| i < *j) {
+                                    *g = Some((i, f.reason));
+                                }
+                            }
+                        }
+                    }
+                    finished.fetch_add(1, Ordering::Relaxed);
+                });
+            }
+        });
+        if let Some((i, reason)) = first_fail.into_inner().unwrap() {
+            self.violation(sub, &cases[i], &reason);
+            return false;
+        }
+        true
+    }
+
     /// proptest-driven exploration, sharded over threads. Returns true when no violation was found.
     pub fn drive<S, V>(
         &self,
